@@ -372,6 +372,16 @@ class FakeDatagramTransport(asyncio.DatagramTransport):
     def sendto(self, data, addr=None) -> None:
         if self.closed:
             return
+        host = addr[0] if addr else ""
+        if host == "255.255.255.255" or host == "<broadcast>" or host.endswith(".255"):
+            # the OS refuses a datagram to a broadcast address unless SO_BROADCAST is enabled on the socket (EACCES);
+            # a selector datagram transport reports that through protocol.error_received and sends nothing
+            enabled = any(len(o) >= 3 and o[1] == 6 and o[2] for o in getattr(self.sock, "opts", []))   # SO_BROADCAST == 6 in the stub
+            if not enabled:
+                self.udp.refused.append((self.udp.loop.time(), self.eid, addr))
+                if hasattr(self.protocol, "error_received"):
+                    self.protocol.error_received(PermissionError(13, "Permission denied (SO_BROADCAST not set)"))
+                return
         self.udp.sent.append((self.udp.loop.time(), self.eid, bytes(data), addr))
         if self.udp.on_send is not None:
             self.udp.on_send(self, bytes(data), addr)
@@ -417,6 +427,7 @@ class FakeUdp:
         self.closed: list = []
         self.delivered: list = []
         self.fatal: list = []
+        self.refused: list = []
         self.on_send = None
         loop.udp = self
 
